@@ -12,23 +12,65 @@ import json, os, re, subprocess, sys, tempfile, collections
 REPO = os.environ.get("VERIF_REPO", "/repo")
 
 
+def body_end(lines, a, col):
+    """line of the brace closing the body of the definition that starts at (a, col): first `{` at parenthesis depth 0, matched;
+    comments, strings and character literals skipped (clang-query's dump mode, which would give the range, crashes on this TU)"""
+    depth = 0; par = 0; started = False
+    ln = a; c = col - 1; incomment = False
+    while ln <= len(lines) and ln < a + 400:
+        t = lines[ln - 1]
+        while c < len(t):
+            ch = t[c]
+            if incomment:
+                if t.startswith("*/", c):
+                    incomment = False; c += 1
+            elif t.startswith("//", c):
+                break
+            elif t.startswith("/*", c):
+                incomment = True; c += 1
+            elif ch in "\"'":
+                q = ch; c += 1
+                while c < len(t) and t[c] != q:
+                    c += 2 if t[c] == "\\" else 1
+            elif ch == "(":
+                par += 1
+            elif ch == ")":
+                par -= 1
+            elif ch == ";" and not started and par == 0:
+                return ln                              # a declaration after all (defaulted / deleted / macro)
+            elif ch == "{" and par == 0:
+                depth += 1; started = True
+            elif ch == "}" and par == 0:
+                depth -= 1
+                if started and depth == 0:
+                    return ln
+            c += 1
+        ln += 1; c = 0
+    return a
+
+
 def definitions():
     d = tempfile.mkdtemp(prefix="fncensus_")
     open(os.path.join(d, "tu.cpp"), "w").write("#include <adept_arrays.h>\n#include <adept_optimize.h>\n")
     open(os.path.join(d, "q.txt"), "w").write(
-        'set output dump\nset bind-root false\nset traversal IgnoreUnlessSpelledInSource\n'
-        'match functionDecl(isDefinition(), isExpansionInFileMatching("include/adept/")).bind("f")\n')
+        'set output diag\nset traversal IgnoreUnlessSpelledInSource\n'
+        'match functionDecl(isDefinition(), isExpansionInFileMatching("include/adept/"))\n')
     p = subprocess.run(["clang-query-14", "-f", os.path.join(d, "q.txt"), os.path.join(d, "tu.cpp"), "--", "-std=c++11",
                         "-I" + REPO + "/include", "-fopenmp", "-DHAVE_BLAS=1", "-DHAVE_LAPACK=1"],
                        stdout=subprocess.PIPE, stderr=subprocess.DEVNULL, text=True, errors="replace")
-    out = []
+    out = []; src = {}
     for l in p.stdout.split("\n"):
-        m = re.match(r"(CXXMethodDecl|FunctionDecl|CXXConstructorDecl|CXXDestructorDecl|CXXConversionDecl) \S+ (?:prev \S+ |parent \S+ )*"
-                     r"<([^:>]+):(\d+):\d+, (?:line:(\d+):\d+|col:\d+)> (?:line:\d+:\d+|col:\d+) (?:implicit |used |referenced |invalid )*(\S+)", l)
+        m = re.match(r"(/\S+?):(\d+):(\d+): note: \"root\" binds here", l)
         if not m:
             continue
-        f, a, b, name = m.group(2), int(m.group(3)), int(m.group(4) or m.group(3)), m.group(5)
-        out.append((os.path.normpath(f), a, b, name))
+        f, a, col = os.path.normpath(m.group(1)), int(m.group(2)), int(m.group(3))
+        if f not in src:
+            src[f] = open(f, errors="replace").read().split("\n")
+        b = body_end(src[f], a, col)
+        head = " ".join(x.strip() for x in src[f][a - 1:min(b, a + 3)])
+        head = head[col - 1 - (len(src[f][a - 1]) - len(src[f][a - 1].lstrip())):] if False else head
+        mm = re.search(r"(operator\s*(?:\(\)|\[\]|[^\s(]+)|~?\w+)\s*\(", " ".join(x.strip() for x in [src[f][a - 1][col - 1:]] + src[f][a:min(b, a + 6)]))
+        out.append((f, a, b, mm.group(1).replace(" ", "") if mm else "?"))
     import shutil; shutil.rmtree(d, ignore_errors=True)
     return sorted(set(out))
 
